@@ -36,6 +36,8 @@ def make_universe(rng):
             kw['tag'] = rng.choice(['a', 'b', 'c'])
         if rng.random() < 0.3:
             kw['prio'] = rng.randint(0, 3)
+        if rng.random() < 0.2:
+            kw['note'] = None
         tasks.append({'name': f't{i}', 'id': rng.randint(1, alpha), 'kw': kw})
     wbs = []
     for i in range(rng.randint(1, 3)):
@@ -82,6 +84,7 @@ class Gen:
         self.wn = sorted(S['wbs'])
         self.members = {w: gm.dfs(S, S['wbs'][w]['roots']) for w in self.wn}
         self.detached_roots = [t for t in self.names if self.T[t]['parent'] is None and self.T[t]['wbs'] is None]
+        self.detached_inner = [t for t in self.names if self.T[t]['parent'] is not None and self.T[t]['wbs'] is None]
 
     def anc(self, t):
         return gm.ancestors(self.S, t)[0]
@@ -185,7 +188,8 @@ class Gen:
     def g_attach_under(self):
         for _ in range(6):
             p = self.pick(self.names)
-            cands = self.detached_roots + (self.members.get(self.T[p]['wbs'], []) if self.r.random() < 0.3 else [])
+            cands = self.detached_roots + (self.members.get(self.T[p]['wbs'], []) if self.r.random() < 0.3 else []) \
+                + (self.detached_inner if self.r.random() < 0.4 else [])
             t = self.pick([c for c in cands if c != p])
             if t is None or not self.can_adopt(t, p):
                 continue
@@ -209,8 +213,11 @@ class Gen:
         w = self.pick([w for w in self.wn if len(self.members[w]) >= 2])
         if not w:
             return None
+        # tasks that REPORT w as owner (equal to the members on a sound tree; on a corrupted one this also
+        # reaches orphans that still claim the WBS)
+        claimed = [t for t in self.names if self.T[t]['wbs'] == w]
         for _ in range(6):
-            t = self.pick(self.members[w])
+            t = self.pick(claimed)
             tgt = self.pick(self.members[w] + [None])
             if tgt is None:
                 return {'op': 'set_parent', 't': t, 'p': None}
@@ -437,7 +444,7 @@ class Gen:
         q = {'on': w, 'what': 'tasks', 'ids': ids}
         form = self.r.choice(['name', 'tag', 'parent', 'lshift', 'parent_none'])
         if form in ('name', 'tag'):
-            return {'op': 'q_setattr', 'q': q, 'attr': form, 'value': self.r.choice(['X', 'Y'])}
+            return {'op': 'q_setattr', 'q': q, 'attr': form, 'value': self.r.choice(['X', 'Y', None])}
         if form == 'parent_none' and len(sel) == 1:
             return {'op': 'q_setattr', 'q': q, 'attr': 'parent', 'value': None}
         if form == 'parent' and len(sel) == 1:
@@ -497,7 +504,7 @@ class Gen:
             tgt = self.pick(self.wn + self.names)
             mem = self.members[tgt] if tgt in self.wn else list(self.tree_ids(tgt).values())
             ids = {self.T[m]['id'] for m in mem}
-            cands = [t for t in self.detached_roots if t not in mem and self.sub_ids(t) & ids]
+            cands = [t for t in self.detached_roots + self.detached_inner if t not in mem and self.sub_ids(t) & ids]
             t = self.pick(cands)
             if not t:
                 continue
@@ -719,12 +726,15 @@ class Gen:
 
     def f_multi_late(self):
         """multi-element argument whose LAST element is the offending one"""
-        form = self.r.choice(['children_dup', 'children_cross', 'children_anc', 'preds_anc', 'preds_cycle', 'succs_cycle', 'move_foreign', 'bulk_parent', 'bulk_lshift'])
+        form = self.r.choice(['children_dup', 'children_cross', 'children_anc', 'children_anc', 'children_linked', 'preds_anc', 'preds_cycle', 'succs_cycle', 'move_foreign', 'bulk_parent', 'bulk_lshift'])
         if form.startswith('children'):
             tgt = self.pick(self.wn + self.names)
+            if form in ('children_anc', 'children_linked'):
+                withkids = [x for x in self.names if self.T[x]['children'] and (self.anc(x) or form == 'children_linked')]
+                tgt = self.pick(withkids) or tgt
             good = [x for x in self.detached_roots if x != tgt and self.can_adopt(x, tgt)]
             g = self.pick(good)
-            if not g:
+            if not g and form not in ('children_anc', 'children_linked'):
                 return None
             cur = self.S['wbs'][tgt]['roots'] if tgt in self.wn else self.T[tgt]['children']
             bad = None
@@ -740,10 +750,20 @@ class Gen:
                 bad = self.pick(others)
             elif form == 'children_anc' and tgt in self.names:
                 bad = self.pick(self.anc(tgt))
+            elif form == 'children_linked' and tgt in self.names:
+                chain = [tgt] + self.anc(tgt)
+                linked = [x for x in self.detached_roots if x != tgt and any(
+                    l in chain for s2 in [x] + self.desc(x) for l in self.T[s2]['preds'] + self.T[s2]['succs'])]
+                bad = self.pick(linked)
             if not bad:
                 return None
+            items = (list(cur) if self.r.random() < 0.8 else []) + ([g] if g else []) + [bad]
+            if self.r.random() < 0.6:
+                # offender somewhere in the middle: elements after it are the interesting ones
+                items.remove(bad)
+                items.insert(self.r.randrange(len(items) + 1), bad)
             return {'op': self.r.choice(['set_children', 'iadd_children', 'floordiv']), 'on': tgt,
-                    'arg': self.arg((cur if self.r.random() < 0.7 else []) + [g, bad], False)}
+                    'arg': self.arg(items, False)}
         if form in ('preds_anc', 'preds_cycle', 'succs_cycle'):
             t = self.pick(self.names)
             good = self.pick([p for p in self.names if self.can_link(t, p)] if form != 'succs_cycle' else [p for p in self.names if self.can_link(p, t)])
@@ -760,7 +780,7 @@ class Gen:
                 op = self.r.choice(['set_succs', 'iadd_succs', 'rshift'])
             if not bad:
                 return None
-            return {'op': op, 't': t, 'arg': self.arg([good, bad], False)}
+            return {'op': op, 't': t, 'arg': self.arg([good, bad] if self.r.random() < 0.6 else [bad, good], False)}
         if form == 'move_foreign':
             c = self.list_owner()
             if not c or len(c[2]) < 2:
@@ -827,8 +847,36 @@ class Gen:
                 return op
         return None
 
+    def g_orphan_followup(self, orphans):
+        """Only reachable on a tree that is already corrupted (a task that still claims a WBS although it is no
+        longer reachable from its roots): aim the next operations at the orphan, because that is where a broken
+        rejection path turns into duplicate ids / double listing.  Never fires on a sound tree."""
+        x = self.pick(orphans)
+        w = self.T[x]['wbs']
+        form = self.r.choice(['twin', 'twin', 'move', 'move', 'move_none', 'append'])
+        if form == 'twin':
+            twins = [d for d in self.detached_roots if self.T[x]['id'] in self.sub_ids(d)]
+            d = self.pick(twins)
+            if d:
+                tgt = self.pick([w] + self.members[w])
+                if tgt == w:
+                    return {'op': 'floordiv', 'on': w, 'arg': self.arg([d])}
+                return {'op': 'set_parent', 't': d, 'p': tgt}
+        m = self.pick(self.members[w])
+        if form == 'move_none' or not m:
+            return {'op': 'set_parent', 't': x, 'p': None}
+        if form == 'append':
+            return {'op': 'l_append', 'via': self.via(m, 'children'), 't': x}
+        return {'op': 'set_parent', 't': x, 'p': m}
+
     def next_op(self, S, world, step):
         self.setup(S, world)
+        orphans = [t for t in self.names if self.T[t]['wbs'] in self.members and t not in self.members[self.T[t]['wbs']]]
+        if orphans and self.r.random() < 0.6:
+            op = self.g_orphan_followup(orphans)
+            if op is not None:
+                op['_intent'] = 'orphan_followup'
+                return op
         if step < self.cfg['build']:
             pool = ['attach_root', 'attach_root', 'attach_under', 'attach_under', 'link', 'move_in_wbs']
             for _ in range(8):
